@@ -59,6 +59,7 @@ class Dev(object):
     self.remote_of = {}
     self.consumed = []        # messages the host has taken off the transport, in order
     self.hold = {}            # local id -> withheld OKAY acks (released later by the test script)
+    self.withhold = {}        # local id -> acknowledgements kept back for now
     self.echo = {}            # local id -> payloads the device sends right after acknowledging the next host WRTE
 
   def push(self, cmd, a0, a1, data=''):
@@ -110,6 +111,9 @@ class Dev(object):
       if self.unread_okay.get(a0, 0) > 0 or self.hold.get(a0):
         self.facts.append('X:second-WRTE-before-the-first-was-acknowledged:%d' % a0)
       self.unread_okay[a0] = self.unread_okay.get(a0, 0) + 1
+      if a0 in self.withhold:
+        self.withhold[a0].append(('OKAY', a1, a0))      # the acknowledgement comes late (released by the test script)
+        return
       self.push('OKAY', a1, a0)
       # a device that answers what the host wrote (a shell echoing a command): the reader of that stream is still
       # reading when the acknowledgement of the write arrives
@@ -352,6 +356,49 @@ def _run_reopen(case):
   return {'broken': True, 'facts': facts, 'reopen': True}
 
 
+def _run_wfail(case):
+  """one stream, one thread: a write whose acknowledgement does not come in time fails; whatever the host does next,
+  the device never sees a second WRTE of that stream before it has acknowledged the first (and the late OKAY is not
+  taken for the acknowledgement of a later write)"""
+  ap = _setup()
+  from openhtf.plugs.usb import adb_message as am
+  from openhtf.plugs.usb import usb_exceptions as ue
+  res = {}
+
+  def body(s):
+    dev = Dev(s)
+    conn = ap.AdbConnection(am.AdbTransportAdapter(dev), 4096, 'device:SER:banner')
+    facts = []
+    res['facts'], res['dev'] = facts, dev
+    a = conn.open_stream('a:', timeout_ms=5000)
+    la = a._transport.local_id
+    dev.withhold[la] = []
+    outcomes = []
+    for k in range(case['writes']):
+      try:
+        a.write('w%d' % k, timeout_ms=200)
+        outcomes.append('ok')
+      except Exception as e:  # pylint: disable=broad-except
+        outcomes.append(c15._errkind(e, ue))
+      if k == case.get('release_after'):
+        late, dev.withhold[la] = dev.withhold[la], []
+        for m in late:
+          dev.push(*m)
+        if case.get('then_stop_withholding'):
+          del dev.withhold[la]
+    wrtes = [1 for (cmd, a0, a1, data) in dev.sent if cmd == 'WRTE' and a0 == la]
+    if outcomes[0] == 'ok':
+      facts.append('X:write-without-acknowledgement-reported-success')
+    if len(wrtes) > 1 and case.get('release_after') is None:
+      facts.append('X:second-WRTE-before-the-first-was-acknowledged:%d' % la)
+    return True
+  box, s = sched.run(sched.random_chooser(common.Rng('c14w/0'), 0.0), body, max_steps=60000)
+  facts = res.get('facts', []) + list(getattr(res.get('dev'), 'facts', []))
+  if s.deadlock or 'sched_error' in box:
+    facts.append('X:deadlock')
+  return {'broken': True, 'facts': sorted(set(facts)), 'reopen': True}
+
+
 def _run_open(case):
   """a thread opens a new stream while another thread, reading its own stream, is the connection's reader: the device
   answers the OPEN with OKAY and sends the new stream's first data right behind it - both may be demultiplexed by the
@@ -425,6 +472,8 @@ def run_real(case):
     return _run_open(case)
   if case.get('kind') == 'reopen':
     return _run_reopen(case)
+  if case.get('kind') == 'wfail':
+    return _run_wfail(case)
   res = {}
   early = None
   if case.get('early'):
@@ -486,6 +535,8 @@ def classify(case, o):
     return 'open-while-another-stream-reads'
   if case.get('kind') == 'reopen':
     return 'reopen/' + case['when']
+  if case.get('kind') == 'wfail':
+    return 'late-acknowledgement'
   return '%ds/%dthr/%s' % (case['nstreams'], len(case['threads']), 'dfs' if case.get('choices') is not None else 'rnd')
 
 
@@ -584,6 +635,11 @@ def gen_cases(rng, tier):
     for stale in (['W'], ['Z'], ['W', 'W'], ['W', 'Z']):
       for pre in (0, 1, 3):
         cases.append({'kind': 'reopen', 'when': when, 'stale': stale, 'pre': pre})
+  # a write whose acknowledgement is late, followed by more writes
+  for writes in (2, 3):
+    for rel in (None, 0, 1):
+      for stop in (False, True):
+        cases.append({'kind': 'wfail', 'writes': writes, 'release_after': rel, 'then_stop_withholding': stop})
   # reader and writer on one stream, the device answers the write, polls fire early: the reader is inside its blocking
   # transport read when the write goes out and may be the one that reads the write's acknowledgement
   for i in range(800 if quick else 8000):
